@@ -485,6 +485,51 @@ def _kernel(ctx: Ctx, k: FuncInfo, fea: bool) -> dict[str, Any]:
     return {"dy": dy_term}
 
 
+def _cv(p: Any, val: dict[Any, int]) -> Any:
+    """Concrete value of a symbolic term for given atoms."""
+    from fractions import Fraction
+    if not isinstance(p, Poly):
+        raise Unsupported("not a number")
+    tot = Fraction(0)
+    for mono, c in p.terms.items():
+        t = Fraction(c)
+        for a, e in mono:
+            if a in val:
+                v = Fraction(val[a])
+            elif a[0] == "ite":
+                v = Fraction(_cv(a[2] if _cc(a[1], val) else a[3], val))
+            elif a[0] == "app" and a[1] in ("min", "max"):
+                vs = [_cv(q, val) for q in a[2]]
+                v = Fraction(min(vs) if a[1] == "min" else max(vs))
+            elif a[0] == "app" and a[1] in ("floordiv", "mod") and \
+                    _cv(a[2][1], val) != 0:
+                x, y_ = _cv(a[2][0], val), _cv(a[2][1], val)
+                v = Fraction(x // y_ if a[1] == "floordiv" else x % y_)
+            else:
+                raise Unsupported(f"cannot evaluate {show(Poly.atom(a))}")
+            t *= v ** e
+        tot += t
+    return int(tot) if tot.denominator == 1 else tot
+
+
+def _cc(c: tuple, val: dict[Any, int]) -> bool:
+    k = c[0]
+    if k == "true":
+        return True
+    if k == "false":
+        return False
+    if k == "not":
+        return not _cc(c[1], val)
+    if k == "and":
+        return all(_cc(x, val) for x in c[1:])
+    if k == "or":
+        return any(_cc(x, val) for x in c[1:])
+    if k in ("lt", "le", "eq"):
+        a, b = _cv(c[1], val), _cv(c[2], val)
+        return a < b if k == "lt" else (a <= b if k == "le" else a == b)
+    raise Unsupported(f"cannot evaluate condition {k}")
+
+
 # -------------------------------------------------------------------- solve
 def _solve(ctx: Ctx, sv: FuncInfo, k: FuncInfo, fea: bool,
            kinfo: dict[str, Any]) -> None:
@@ -663,7 +708,37 @@ def _solve(ctx: Ctx, sv: FuncInfo, k: FuncInfo, fea: bool,
             if not good and bad is None:
                 bad = m.describe(["draw1", "draw2", "0", "n-2"])
     except Unsupported as u:
-        bad = f"conditions not order-abstract: {u}"
+        # index arithmetic (e.g. `i -= 1`) is not a pure ordering question:
+        # evaluate the symbolic index expressions and path condition for
+        # every pair of draws of small instances instead
+        bad = None
+        n_models = n_pass = 0
+        undecided = False
+        for n_ in range(2, 9):
+            for d1 in range(n_ - 1):
+                for d2 in range(n_ - 1):
+                    val = {draws[0]: d1, draws[1]: d2,
+                           ncity.as_atom(): n_}
+                    try:
+                        if not _cc(kpath, val):
+                            n_models += 1
+                            continue
+                        iv, jv = _cv(iarg, val), _cv(jarg, val)
+                    except Unsupported:
+                        undecided = True
+                        continue
+                    n_models += 1
+                    n_pass += 1
+                    if not (0 <= iv < jv <= n_ - 2) or (
+                            iv == 0 and jv == n_ - 2):
+                        if bad is None:
+                            bad = (f"n = {n_} cities, draws {d1} and {d2}: "
+                                   f"the kernel is called with i = {iv}, "
+                                   f"j = {jv}")
+        if bad is None:
+            bad = (f"cannot normalise the index arithmetic: not recognised "
+                   f"({u}; no counterexample among all draws for n <= 8)")
+        del undecided
     ctx.count("orderings_enumerated", n_models)
     ctx.ob("D6.5", sv, call, bad is None and n_pass > 0,
            f"{n_models} weak orderings of the two draws against 0 and n-2; "
